@@ -20,6 +20,7 @@ pub mod sql_order;
 pub mod sql_agg;
 pub mod sql_fn;
 pub mod sql_rewrite;
+pub mod sql_dml;
 
 pub fn run(engine: &str, ctx: &Ctx) -> Report {
     match engine {
@@ -39,6 +40,8 @@ pub fn run(engine: &str, ctx: &Ctx) -> Report {
         "sql_agg" => sql_agg::run(ctx),
         "sql_fn" => sql_fn::run(ctx),
         "sql_rewrite" => sql_rewrite::run(ctx),
+        "sql_dml" => sql_dml::run(ctx),
+        "sql_dml_atomic" => sql_dml::run_atomic(ctx),
         _ => {
             eprintln!("unknown engine {engine}");
             std::process::exit(2);
